@@ -30,10 +30,13 @@ ASSUMPTIONS = [
 ]
 RULE = ("random package lists: 0-6 lines from package lines (6 spec spellings incl. bare cat/pkg-ver, slots, operators; 0-3 keywords incl. "
         "the sentinels * ^ -, tokens with an inner #; leading/trailing/irregular whitespace incl. tabs, NBSP, U+3000), blank lines, "
-        "comment lines, trailing comments, line endings \\n \\r\\n \\r none and occasionally \\v \\f \\x1c \\x85 U+2028, a few malformed "
+        "comment lines, trailing comments (also followed by trailing blanks, which belong to the comment), line endings \\n \\r\\n \\r none and occasionally \\v \\f \\x1c \\x85 U+2028, a few malformed "
         "specs; random suggestion tables (empty, one, several keywords, a literal sentinel); with_keywords on random parsed entries "
         "with random new keywords; build from random (atom, keywords) lists. non-trivial = at least two package lines and (a sentinel, "
-        "a comment or irregular spacing)")
+        "a comment or irregular spacing). The property is evaluated on the real code for every text before any model comparison; a "
+        "failing text is shrunk (lines, then characters) before it is reported; where model and code disagree the property is "
+        "evaluated (incl. with_keywords on every line) on the text and its neighbours (single lines, keywords replaced by sentinels, "
+        "blanks/comments appended at the line end) and only if it holds on all of them is the disagreement filed as a mismatch")
 
 
 def gen_tables(repo):
@@ -71,6 +74,7 @@ WS = [" ", " ", "  ", "\t", " \t ", "   "]
 ODD_WS = ["\xa0", "\u2003", "\u3000 "]
 EOLS = ["\n", "\n", "\r\n", "\r"]
 ODD_EOLS = ["\x0b", "\x0c", "\x1c", "\x1d", "\x1e", "\x85", "\u2028", "\u2029", "\n\r", "\r\r\n"]
+AFTER_COMMENT = ["", "", "", "", " ", "  ", "\t", " \t ", "\xa0"]     # trailing blanks after a comment (part of the comment text)
 SUGGESTIONS = [[], ["amd64"], ["arm", "~x86"], ["hppa", "ppc", "sparc"], ["*"], ["-"], ["^"], ["a#b"]]
 
 
@@ -79,7 +83,7 @@ def gen_line(rng):
     if k < 0.08:
         return rng.choice(["", " ", "\t", "   "])
     if k < 0.18:
-        return rng.choice(["", " ", "\t "]) + "#" + rng.choice(["", " note", "# x *", " dev-libs/a *"])
+        return rng.choice(["", " ", "\t "]) + "#" + rng.choice(["", " note", "# x *", " dev-libs/a *"]) + rng.choice(AFTER_COMMENT)
     ws = lambda: rng.choice(ODD_WS) if rng.random() < 0.04 else rng.choice(WS)
     s = rng.choice(["", "", "", " ", "   ", "\t"])
     s += rng.choice(BAD_SPECS) if rng.random() < 0.03 else rng.choice(SPECS)
@@ -87,7 +91,8 @@ def gen_line(rng):
         s += ws() + rng.choice(KWS)
     s += rng.choice(["", "", "", " ", "   ", "\t"])
     if rng.random() < 0.3:
-        s += rng.choice([" ", "\t", "  "]) + "#" + rng.choice(["", " c", " ^ *", "#", "keep me"])
+        # the comment runs to the end of the line, including any blanks typed after it
+        s += rng.choice([" ", "\t", "  "]) + "#" + rng.choice(["", " c", " ^ *", "#", "keep me", " two  words # twice", "\tx"]) + rng.choice(AFTER_COMMENT)
     elif rng.random() < 0.03:
         s += "#glued"          # no whitespace before '#': part of the last token, not a comment
     return s
@@ -122,6 +127,11 @@ CORPUS_TEXTS = [
     "dev-libs/a amd64\n\n# note\ndev-libs/b ^",
     "dev-libs/a-1        *   # aligned\n",
     "   dev-libs/a amd64   # keep me\ndev-libs/b *\n",
+    # comments followed by trailing blanks, on rewritten and on untouched lines
+    "dev-libs/a *   # first pass  \n",
+    "  dev-libs/a-1.2 amd64\t# keep \t\r\ndev-libs/b ^ ppc # same as above \r\n# done \r\n",
+    "dev-libs/a * #\t",
+    "dev-libs/a amd64 # x \ndev-libs/b ^\t#  \n \t# only a comment\t \n",
     "dev-libs/a * ppc",
     "dev-libs/a *\r\ndev-libs/b ^\r\n",
     "dev-libs/a\t*\t\t^\x0bdev-libs/b ^ \x1c",      # exotic line boundaries end a line (and stay in raw)
@@ -231,6 +241,168 @@ def ref_expand(text, valid, suggest):
     return "".join(res)
 
 
+# ------------------------------------------------------------------ the property on the real code
+DEFAULT_SUGGESTION = ["arm", "x86"]
+PROBE_KEYWORDS = [[], ["amd64"], ["~x86", "-"]]
+
+
+def expand_outcome(pl, by_atom):
+    """real expand -> ("ok", text, list object) / ("err", kind, lineno) / ("raised", description)"""
+    from pkgcore.bugzilla.errors import PackageListError
+    try:
+        got_pl = pl.expand(lambda pkg: tuple(by_atom.get(str(pkg), DEFAULT_SUGGESTION)))
+        return ("ok", str(got_pl), got_pl)
+    except PackageListError as e:
+        msg = str(e)
+        kind = "nothing_above" if "no line above" in msg else "copies_empty" if "copies an empty line" in msg else "malformed"
+        return ("err", kind, e.lineno)
+    except Exception as e:
+        return ("raised", f"expand raised {type(e).__name__}: {e}")
+
+
+def rewrite_failure(e, new):
+    """with_keywords(new) on one real parsed entry against the layout the property demands; None when it holds"""
+    try:
+        got = e.with_keywords(iter(new))
+    except Exception as ex:
+        return f"with_keywords({new}) on line {e.raw!r} raised {type(ex).__name__}: {ex}"
+    if e.pkg is None:
+        return None if got is e else f"with_keywords on the line {e.raw!r} without package did not return the entry itself"
+    lead, spec, sep, kwtext, trail, comment = split_spec(e.raw)
+    first_sep = sep if kwtext else (" " if new else "")
+    want_raw = lead + spec + first_sep + " ".join(new) + trail + comment
+    if got.raw != want_raw:
+        return f"line {e.raw!r} rewritten with keywords {new} gives {got.raw!r}; keeping spec, spacing and comment gives {want_raw!r}"
+    if (got.lineno, got.pkg, got.eol, got.keywords) != (e.lineno, e.pkg, e.eol, tuple(new)):
+        return f"rewriting line {e.raw!r} changed more than raw/keywords: {entry_json(got)}"
+    return None
+
+
+def text_property(text, by_atom, deep=False, info=None):
+    """the property itself on the real code for one text and one suggestion table: parse/render identity, expansion = the
+    reference (only lines whose keywords change are rewritten; spec, spacing, comment, ending kept); with deep=True also
+    with_keywords on every parsed line for a few keyword lists.  None when it holds, else the description of the failure."""
+    from pkgcore.bugzilla.errors import PackageListError
+    from pkgcore.bugzilla.pkglist import PackageList
+    info = {} if info is None else info
+    pl = PackageList(text, bug_id=7)
+    try:
+        entries = pl.entries
+    except PackageListError as e:
+        entries = None
+        info["perr"] = e.lineno
+    except Exception as e:
+        return f"parsing raised {type(e).__name__}: {e}"
+    info["pl"], info["entries"] = pl, entries
+    if entries is not None:
+        rendered = "".join(e.raw + e.eol for e in entries)
+        if rendered != text:
+            return f"rendering the parsed entries gives {rendered!r}"
+        if str(pl) != text:
+            return "str(PackageList(text)) != text"
+    valid = atom_oracle(text)
+    got = info["got"] = expand_outcome(pl, by_atom)
+    if got[0] == "raised":
+        return got[1]
+    try:
+        want = ("ok", ref_expand(text, valid, lambda a: list(by_atom.get(a, DEFAULT_SUGGESTION))))
+    except RefError as e:
+        want = ("err", e.kind, e.lineno)
+    if got[:2] != want[:2] or (got[0] == "err" and got != want):
+        if got[0] == "ok" and want[0] == "ok":
+            gl, wl = got[1].splitlines(keepends=True), want[1].splitlines(keepends=True)
+            diff = next(((i + 1, a, b) for i, (a, b) in enumerate(zip(gl, wl)) if a != b), None)
+            return (f"expand gives {got[1]!r}; touching only the changed lines and keeping their layout gives {want[1]!r}; "
+                    f"first differing line {diff}")
+        return f"expand gives {got[:3] if got[0] == 'err' else got[:2]}, the reference gives {want}"
+    if deep and entries is not None:
+        for e in entries:
+            for new in PROBE_KEYWORDS:
+                d = rewrite_failure(e, new)
+                if d is not None:
+                    return d
+    return None
+
+
+def neighbours(text):
+    """texts near `text` on which damage done to one line becomes observable: every line alone and with its predecessor; every
+    package line with its keywords replaced by a sentinel (`^` below a plain line), with blanks appended / stripped at its end and
+    with a comment (followed by blanks or not) appended"""
+    lines = text.splitlines(keepends=True)
+    out = []
+
+    def add(t):
+        if t not in out and t != text:
+            out.append(t)
+    for i, line in enumerate(lines):
+        add(line)
+        if i:
+            add(lines[i - 1] + line)
+        raw = line.rstrip("\r\n")
+        eol = line[len(raw):]
+        sc = split_spec(raw)
+        if sc is None:
+            continue
+        lead, spec, sep, kwtext, trail, comment = sc
+        tails = [trail + comment, trail + comment + " ", trail + comment + "\t ", (trail + comment).rstrip()]
+        if not comment:
+            tails += [trail + " # c", trail + "\t# c  "]
+        for tail in tails:
+            for kw in ("*", "^ x86", (kwtext + " *").strip(), kwtext):
+                variant = lead + spec + (sep or " ") + kw + tail + eol
+                add(variant)
+                add("dev-libs/zz amd64 ~arm\n" + variant)
+    return out[:400]
+
+
+def shrink_text(text, fails, budget=400):
+    """greedy reduction of a failing text: drop whole lines, then single characters, while `fails` still reports a failure"""
+    detail = fails(text)
+    spent = 0
+    progress = True
+    while progress and spent < budget:
+        progress = False
+        lines = text.splitlines(keepends=True)
+        for i in range(len(lines)):
+            cand = "".join(lines[:i] + lines[i + 1:])
+            spent += 1
+            d = fails(cand)
+            if d is not None:
+                text, detail, progress = cand, d, True
+                break
+    i = 0
+    while i < len(text) and spent < budget:
+        cand = text[:i] + text[i + 1:]
+        spent += 1
+        d = fails(cand)
+        if d is not None:
+            text, detail = cand, d
+        else:
+            i += 1
+    return text, detail
+
+
+def report_failure(ctx, text, by_atom, detail, deep, origin=None):
+    """shrink a text on which the property fails and report it as a violation"""
+    small, sdetail = shrink_text(text, lambda t: text_property(t, by_atom, deep))
+    table = {a: by_atom.get(a, DEFAULT_SUGGESTION) for a in sorted(set(atom_oracle(small).values()))}
+    case = {"text": small, "suggest": table}
+    note = "" if small == text and origin is None else f"  [shrunk from {text!r}" + (f", found next to {origin}" if origin else "") + "]"
+    ctx.violation(case, sdetail + note)
+
+
+def explore(ctx, text, by_atom, why):
+    """model and code disagree on `text`: evaluate the property on the real code for this text (deep) and its neighbours, with the
+    case's suggestion table and the default one; report the (shrunk) failing input and return True, or return False"""
+    for t in [text] + neighbours(text):
+        for table in (by_atom, {}):
+            d = text_property(t, table, deep=True)
+            if d is not None:
+                report_failure(ctx, t, table, d, True, origin=f"{text!r}, where {why}")
+                return True
+    return False
+
+
 # ------------------------------------------------------------------ run
 
 def atom_oracle(text):
@@ -256,8 +428,19 @@ def run(ctx):
     from pkgcore.ebuild.atom import atom
     rng = ctx.rng
     texts = list(CORPUS_TEXTS)
+    deep_texts = set()
     if ctx.replay_cases:
-        texts = [c["text"] for c in ctx.replay_cases if "text" in c] + texts
+        deep_texts = {c["text"] for c in ctx.replay_cases if "text" in c}
+        for c in ctx.replay_cases:      # recorded with_keywords cases: re-read the line with the real parser and rewrite it again
+            if "entry" in c and "new_keywords" in c:
+                try:
+                    (e,) = PackageList(c["entry"][1]).entries
+                except Exception:
+                    continue
+                d = rewrite_failure(e, c["new_keywords"])
+                if d is not None:
+                    ctx.violation(c, d)
+        texts = [(c["text"], c.get("suggest") or {}) for c in ctx.replay_cases if "text" in c] + texts
     texts += [gen_text(rng) for _ in range(ctx.n(5000, 120000))]
     if not ctx.quick():
         # bounded-exhaustive: every line of a small layout grammar alone, and every ordered pair from a reduced grammar
@@ -275,9 +458,12 @@ def run(ctx):
     # ---------------- parse + expand
     cases = []
     for text in texts:
+        recorded = {}
+        if isinstance(text, tuple):
+            text, recorded = text
         valid = atom_oracle(text)
         ids = sorted(set(valid.values()))
-        table = {a: rng.choice(SUGGESTIONS) for a in ids}
+        table = {a: recorded[a] if a in recorded else rng.choice(SUGGESTIONS) for a in ids}
         cases.append((text, valid, table))
     reqs = []
     for text, valid, table in cases:
@@ -285,22 +471,18 @@ def run(ctx):
         reqs.append({"cmd": "c38.expand", "text": text, "atoms": valid, "suggest": table})
     replies = ctx.model(reqs)
     wk_cases = []
+    explored = 0
     for idx, (text, valid, table) in enumerate(cases):
         rp, re_ = replies[2 * idx], replies[2 * idx + 1]
         case = {"text": text, "suggest": table}
         if not isinstance(rp, dict) or not isinstance(re_, dict):
             ctx.mismatch(case, f"driver answered {rp!r} / {re_!r}")
             continue
-        pl = PackageList(text, bug_id=7)
-        try:
-            entries = pl.entries
-            perr = None
-        except PackageListError as e:
-            entries, perr = None, e.lineno
-        except Exception as e:
-            ctx.case(case, True)
-            ctx.violation(case, f"parsing raised {type(e).__name__}: {e}")
-            continue
+        # ---- edge C: the property on the real code (render identity; reference = only changed lines rewritten, layout kept)
+        info = {}
+        deep = text in deep_texts
+        detail = text_property(text, table, deep=deep, info=info)
+        entries, perr, got, pl = info.get("entries"), info.get("perr"), info.get("got"), info.get("pl")
         npk = 0 if entries is None else sum(1 for e in entries if e.pkg is not None)
         has_sentinel = entries is not None and any(k in ("*", "^") for e in entries for k in e.keywords)
         irregular = bool(re.search(r"[ \t]{2,}|\t|#|^\s", text, flags=re.M))
@@ -315,66 +497,38 @@ def run(ctx):
             ctx.count("has_exotic_line_boundary")
         if "#" in text:
             ctx.count("has_comment_or_hash")
-        # ---- parse: edge C (identity) and edge A
         if entries is not None:
-            if "".join(e.raw + e.eol for e in entries) != text:
-                ctx.violation(case, f"rendering the parsed entries gives {''.join(e.raw + e.eol for e in entries)!r}")
-                continue
-            if str(pl) != text:
-                ctx.violation(case, "str(PackageList(text)) != text")
-                continue
-        if (perr is None) != ("entries" in rp):
-            ctx.mismatch(case, f"impl parse {'ok' if perr is None else 'error line %s' % perr}, model {rp}")
+            if any(e.comment and e.comment != e.comment.rstrip() for e in entries):
+                ctx.count("has_blanks_after_comment")
+            if any(e.pkg is not None and e.comment and e.raw != e.raw.rstrip() and any(k in ("*", "^") for k in e.keywords) for e in entries):
+                ctx.count("has_sentinel_line_with_comment_and_trailing_blanks")
+        if detail is not None:
+            report_failure(ctx, text, table, detail, deep)
             continue
         if perr is not None:
             ctx.count("parse_error")
-            if rp["err"] != perr:
-                ctx.mismatch(case, f"impl reports line {perr}, model line {rp['err']}")
-        elif [entry_json(e) for e in entries] != rp["entries"]:
-            ctx.mismatch(case, f"impl entries {[entry_json(e) for e in entries]} != model {rp['entries']}")
-            continue
-        # ---- expand
-        by_atom = {}
-        for tok, a in valid.items():
-            by_atom[a] = table[a]
-        calls = []
-
-        def suggest(pkg, by_atom=by_atom, calls=calls):
-            calls.append(str(pkg))
-            return tuple(by_atom[str(pkg)])
-        try:
-            got_pl = pl.expand(suggest)
-            got = ("ok", str(got_pl))
-        except PackageListError as e:
-            msg = str(e)
-            kind = "nothing_above" if "no line above" in msg else "copies_empty" if "copies an empty line" in msg else "malformed"
-            got = ("err", kind, e.lineno)
-            got_pl = None
-        except Exception as e:
-            ctx.violation(case, f"expand raised {type(e).__name__}: {e}")
-            continue
-        try:
-            want = ("ok", ref_expand(text, valid, lambda a: list(by_atom[a])))
-        except RefError as e:
-            want = ("err", e.kind, e.lineno)
         ctx.count("expand_" + (got[0] if got[0] == "ok" else got[1]))
         if got[0] == "ok" and got[1] != text:
             ctx.count("expand_changed_something")
-        # edge C: the property on the real code (reference = only changed lines rewritten, layout kept)
-        if got != want:
-            if got[0] == "ok" and want[0] == "ok":
-                gl, wl = got[1].splitlines(keepends=True), want[1].splitlines(keepends=True)
-                diff = next(((i + 1, a, b) for i, (a, b) in enumerate(zip(gl, wl)) if a != b), None)
-                ctx.violation(case, f"expand gives {got[1]!r}; touching only the changed lines and keeping their layout gives {want[1]!r}; first differing line {diff}")
-            else:
-                ctx.violation(case, f"expand gives {got}, the reference gives {want}")
-            continue
-        if got[0] == "ok" and got[1] == text and got_pl is not pl:
+        if got[0] == "ok" and got[1] == text and got[2] is not pl:
             ctx.note("expand built a new (equal) PackageList although nothing changed — allowed by the property, noted only")
-        # edge A
+        # ---- edge A: model vs implementation; on a disagreement the property is evaluated on the real code for this text (incl.
+        # with_keywords on each of its lines) and for the neighbouring texts before it is filed as a mere mismatch
+        why = None
         model = ("ok", re_["ok"]) if "ok" in re_ else ("err", re_["err"][0], re_["err"][1])
-        if got != model:
-            ctx.mismatch(case, f"impl expand {got} != model {model}")
+        if (perr is None) != ("entries" in rp):
+            why = f"impl parse {'ok' if perr is None else 'error line %s' % perr}, model {rp}"
+        elif perr is not None and rp["err"] != perr:
+            why = f"impl reports line {perr}, model line {rp['err']}"
+        elif perr is None and [entry_json(e) for e in entries] != rp["entries"]:
+            why = f"impl entries {[entry_json(e) for e in entries]} != model {rp['entries']}"
+        elif got[:2] != model[:2] or (got[0] == "err" and got != model):
+            why = f"impl expand {got[:3] if got[0] == 'err' else got[:2]} != model {model}"
+        if why is not None:
+            explored += 1
+            if explored > 25 or not explore(ctx, text, table, why):
+                ctx.mismatch(case, why)
+            continue
         if entries:
             wk_cases.append((text, entries))
 
@@ -423,12 +577,17 @@ def run(ctx):
                 ctx.violation(case, f"the rewritten line {got.raw!r} no longer parses: {ex}")
                 continue
         # edge A: model entry, and the Lean re-reading = the independent python re-reading = the specified layout
+        why = None
         if entry_json(got) != rep["entry"]:
-            ctx.mismatch(case, f"impl {entry_json(got)} != model {rep['entry']}")
+            why = f"impl {entry_json(got)} != model {rep['entry']}"
         elif layout_of(got.raw) != rep["reread"]:
-            ctx.mismatch(case, f"python reading of the new line {layout_of(got.raw)} != lean reading {rep['reread']}")
+            why = f"python reading of the new line {layout_of(got.raw)} != lean reading {rep['reread']}"
         elif e.pkg is not None and rep["reread"] != rep["expected"]:
-            ctx.mismatch(case, f"lean reading {rep['reread']} != specified layout {rep['expected']} (theorem rewrite_preserves… broken?)")
+            why = f"lean reading {rep['reread']} != specified layout {rep['expected']} (theorem rewrite_preserves… broken?)"
+        if why is not None:
+            explored += 1
+            if explored > 25 or not explore(ctx, e.raw + e.eol, {}, why):
+                ctx.mismatch(case, why)
 
     # ---------------- build
     ATOMS = ["dev-libs/a", "=dev-libs/a-1.2.3", ">=x11-libs/c-3-r1", "app/d:2", "~app/e-1", "=dev-libs/f-1*", "<app/g-2:3/4", "app/d:2/3"]
